@@ -80,6 +80,7 @@ func runC12(c *core.Ctx) {
 	c03R3as(c, "C12.R2")
 	c12Validate(c)
 	_ = strings.TrimSpace
+	saltRule(c, "C12.R4")
 }
 
 func c12Validate(c *core.Ctx) {
